@@ -461,9 +461,10 @@ impl Dependencies for Expr {
                 lhs_deps.append(&mut index.net_dependencies());
                 lhs_deps
             }
-            E::DotLookup { lhs, .. } => {
-                let x = lhs.net_dependencies();
-                x
+            E::DotLookup { lhs, dot_chain, .. } => {
+                let mut lhs_deps = lhs.net_dependencies();
+                lhs_deps.append(&mut dot_chain.net_dependencies());
+                lhs_deps
             }
             E::ReferenceToSelf(..) => vec![],
             E::ReferenceToConstructor(..) => vec![],
